@@ -62,6 +62,16 @@ SUBEV_RULE = (" subscription-events: hubs with subscription tracking on (every 7
               "active=true / active=false per (subscriber, selector) in that order, payload and type, the restricted watcher sees exactly its selector's events.")
 
 PROPS = {
+    "C18": {
+        "stages": [{"kind": "cases", "name": "subscription-api", "driver": "SUBAPI", "n": {"quick": 200, "thorough": 4000}}, HUB_STAGE],
+        "rule": "subscription-api: hubs with the subscription API on both transports; 1-4 subscribers with 1-4 selectors over the escaping alphabet (space, '+', '/', '%', "
+                "'?#', '.', '..', ';', non-ASCII, U+0000, templates, already-escaped), some gone, publishes in between; the collection, every per-topic collection "
+                "(plus one nobody uses), the dereference of every listed id by the URL the API returned, unknown selector / unknown subscriber pairs, If-None-Match, and "
+                "caller claims {exact URL, template, '*', unrelated, none, empty} on two URLs; judged against Model/SubApi.v (listing, deref, sub_url, can_receive). "
+                "non-trivial = at least two listed documents. hub-histories: " + HUB_RULE,
+        "trusted": HUB_TRUST + ["gorilla/mux routing on the encoded path and net/http URL parsing: glue covered by the differential run only"],
+        "assumptions": ["selectors and subscriber ids are non-empty byte strings"],
+    },
     "C16": {
         "binaries": ["verif26"],
         "stages": [{"kind": "cases", "name": "virtual-clock", "driver": "C16", "binary": "verif26", "gotest": "TestC16", "n": {"quick": 6, "thorough": 60}}],
